@@ -408,10 +408,10 @@ func binopFr(fr *frame, op token.Token, t types.Type, x, y value) value {
 		return strBinop(op, x, y)
 	}
 	if _, ok := x.(opaque); ok {
-		return opaqueBinop(op, x, y)
+		return opaqueBinop(fr, op, x, y)
 	}
 	if _, ok := y.(opaque); ok {
-		return opaqueBinop(op, x, y)
+		return opaqueBinop(fr, op, x, y)
 	}
 	if op == token.EQL || op == token.NEQ {
 		if hasSym(x) || hasSym(y) {
@@ -425,12 +425,33 @@ func binopFr(fr *frame, op token.Token, t types.Type, x, y value) value {
 	return binop(op, t, x, y)
 }
 
-func opaqueBinop(op token.Token, x, y value) value {
+func opaqueBinop(fr *frame, op token.Token, x, y value) value {
+	ne := func(v value) bool {
+		switch s := v.(type) {
+		case opaque:
+			return s.nonEmpty
+		case string:
+			return len(s) > 0
+		case symstr:
+			return len(s.b) > 0
+		}
+		return false
+	}
 	switch op {
 	case token.ADD:
-		return opaque{"concat"}
+		return opaque{tag: "concat", nonEmpty: ne(x) || ne(y)}
+	case token.EQL, token.NEQ:
+		// comparison with the empty string is decidable for a known non-empty opaque string
+		other := y
+		o, ok := x.(opaque)
+		if !ok {
+			o, other = y.(opaque), x
+		}
+		if s, isStr := other.(string); isStr && s == "" && o.nonEmpty {
+			return op == token.NEQ
+		}
 	}
-	panic(inconclusive{"operation on opaque value"})
+	panic(inconclusive{"operation " + op.String() + " on opaque value in " + fr.fn.String()})
 }
 
 // binop implements all arithmetic and logical binary operators for
